@@ -1,1 +1,44 @@
-From Clvm Require Import Model.Classic.
+(* C29 — size-limited serializers fail exactly at the limit with out-of-memory.
+   Only statements here; every proof is `exact <lemma>` from Proofs/ClassicWriter.v.
+
+   Full statement (both serializers):
+     forall t L, ser_X_limit t L = if |ser_X t| <=? L then Ok (ser_X t) else Err OutOfMemory
+   for X = classic (node_to_bytes_limit) and X = back-references (node_to_bytes_backrefs_limit).
+   Proved here: the classic serializer in full (C29_classic), and for the LimitedWriter that both
+   serializers write through, the same law for ANY sequence of write_all chunks
+   (C29_writer_partial). Missing for the back-reference serializer: a model of the chunk sequence
+   ser_br.rs emits and of its error mapping; that half is decided on the implementation by the
+   check's search (every limit 0..len+1), see lib/props/c29.py. *)
+From Clvm Require Import Model.Classic Proofs.ClassicWriter.
+Open Scope N_scope.
+
+(* the unlimited serialization is the recursive [ser]; it exists iff every atom is < 2^34 bytes *)
+Theorem C29_ser_defined : forall t, atoms_small t = true <-> ser t <> None.
+Proof. exact ser_defined. Qed.
+
+(* node_to_bytes_limit: explicit-stack loop over a LimitedWriter, every limit, every tree *)
+Theorem C29_classic : forall t s limit, ser t = Some s ->
+  node_to_bytes_limit t limit = if blen s <=? limit then Ok s else Err OutOfMemory.
+Proof. exact node_to_bytes_limit_spec. Qed.
+
+(* the writer itself: whatever chunks are written, and wherever the limit is crossed *)
+Theorem C29_writer_partial : forall chunks w,
+  lw_writes w chunks =
+    if blen (concat chunks) <=? lw_limit w
+    then Some {| lw_out := lw_out w ++ concat chunks; lw_limit := lw_limit w - blen (concat chunks) |}
+    else None.
+Proof. exact lw_writes_spec. Qed.
+
+(* non-vacuity: a tree whose serialization is 8 bytes, limits 7 (crossed inside the last atom's
+   prefix) and 8 *)
+Example C29_witness :
+  let t := Cons (Atom [1; 2; 3]) (Atom [0xaa; 0xbb]) in
+  ser t = Some [0xff; 0x83; 1; 2; 3; 0x82; 0xaa; 0xbb] /\
+  node_to_bytes_limit t 5 = Err OutOfMemory /\ node_to_bytes_limit t 7 = Err OutOfMemory /\
+  node_to_bytes_limit t 8 = Ok [0xff; 0x83; 1; 2; 3; 0x82; 0xaa; 0xbb].
+Proof. vm_compute. repeat split. Qed.
+
+Print Assumptions C29_ser_defined.
+Print Assumptions C29_classic.
+Print Assumptions C29_writer_partial.
+Print Assumptions C29_witness.
